@@ -19,7 +19,10 @@ InRange(r) == /\ \A a \in Nodes(r.t) : LayoutRange(Attr(r.t, a), r.mdla[a])
 Verdict(r) ==
   LET at == Attrs(r.t)
       scope == IF Len(r.scope) = 0 THEN Nodes(r.t) ELSE SetOf(r.scope)
-  IN If(SetOf(r.mc) # SetOf(r.mp), "compiled-and-reference-mappings-differ")
+      \* documented limitation of the layout: Lv, Ts and Og share one bit (known finding C09-lv-ts-og)
+      merged == (\E a \in Nodes(r.t) : r.t.atoms[a].z \in {117, 118}) \/ (\E k \in 1..Len(r.p.atoms) : \E j \in 1..Len(r.p.atoms[k].zs) : r.p.atoms[k].zs[j] \in {116, 117, 118})
+  IN If(SetOf(r.mc) # SetOf(r.mp) /\ ~merged, "compiled-and-reference-mappings-differ")
+     \cup If(SetOf(r.mc) # SetOf(r.mp) /\ merged, "compiled-and-reference-mappings-differ-Lv-Ts-Og-share-a-bit")
      \cup If(Len(r.mc) # Cardinality(SetOf(r.mc)), "compiled-duplicate-mapping")
      \cup (IF ~InRange(r) THEN {} ELSE
            If(\E a \in Nodes(r.t) : LET e == EncA(at[a], r.mdla[a]) IN
